@@ -106,6 +106,21 @@ def JaRoundtripStatement : Prop :=
     ∃ t' toks, jaImage t = .ok t' ∧ readJaLine s = .ok (t', toks) ∧
       toks.map (fun tok => Token.getD tok (lit "surf") []) = t'.tokens.map (fun tok => Token.getD tok (lit "word") [])
 
+/-- the printed inflection field of the token is not empty.  `jaField` prints `_` when no
+    attribute is present, but an attribute whose value is the empty string gives an empty field
+    (e.g. `[("word","a"),("inflectionForm","")]` prints `{NP a/a/_/}`); the reader chops the last
+    character before `}` and then finds only three `/`-separated parts: `JaRoundtripStatement`
+    is false for such tokens (counterexample in `Props/C20.lean`). -/
+def JaInflOK (t : Token) : Prop := jaField t ["inflectionForm", "inflectionType"] ≠ []
+
+/-- `JaRoundtripStatement` with the missing hypothesis: the printed inflection field of every
+    leaf is non-empty -/
+def JaRoundtripStatement' : Prop :=
+  ∀ (t : Tree) (s : Str),
+    AllCats JaCatOK t → AllToks JaTokOK t → AllToks JaInflOK t → SymOK t → jaOf t = .ok s →
+    ∃ t' toks, jaImage t = .ok t' ∧ readJaLine s = .ok (t', toks) ∧
+      toks.map (fun tok => Token.getD tok (lit "surf") []) = t'.tokens.map (fun tok => Token.getD tok (lit "word") [])
+
 /-- the bank's dependency annotations on a leaf category do not matter: a `_suffix` and `{…}`
     groups are removed before the category is read -/
 def JaAnnotIrrelevantStatement : Prop :=
